@@ -390,7 +390,14 @@ def policy_cases(kind: str, seed: int, n_keys: int, n: int = 3) -> list:
             for m in all_masks(n):
                 mj = jnp.asarray(m)
                 _, a = pol(None, obs, action_mask=mj)
-                out.append(dict(ev="policy", mode="greedy", kind=f"q_eps{eps}", atoms={}, comps=[dict(ranks=ranks, m=m, a=int(a))]))
+                atoms = {}
+                if 0.0 < eps < 1.0:
+                    # "departs from the greedy action with probability at most epsilon": frequency over N keys, 6 sigma
+                    N = 600
+                    acts = np.asarray(jax.vmap(lambda kk: pol(None, obs, key=kk, action_mask=mj)[1])(jr.split(jr.key(seed + 77), N)))
+                    dep = float(np.mean(acts != int(a)))
+                    atoms["DepartsFromGreedyWithProbabilityAtMostEpsilon"] = bool(dep <= eps + 6.0 * math.sqrt(eps * (1 - eps) / N) + 2.0 / N)
+                out.append(dict(ev="policy", mode="greedy", kind=f"q_eps{eps}", atoms=atoms, comps=[dict(ranks=ranks, m=m, a=int(a))]))
                 for k in range(n_keys):
                     _, a = pol(None, obs, key=jr.key(seed * 131 + k), action_mask=mj)
                     out.append(dict(ev="policy", mode=mode, kind=f"q_eps{eps}", atoms={}, comps=[dict(ranks=ranks, m=m, a=int(a))]))
